@@ -36,6 +36,8 @@ def make_any(frontend, framing, fc, L, reads):
         elif framing == "binary":
             assume(B[0] == 0x7B)
             assume(B[2] == fc)
+        elif framing == "tcp" and L <= 7:
+            assume(B[0] == fc)            # shorter than an MBAP header: the first byte is what a bare PDU would start with
         else:
             assume(B[FCPOS[framing]] == fc)
         regs = [st[2 * i] * 256 + st[2 * i + 1] for i in range(4)]
@@ -160,6 +162,12 @@ def obligations(tier):
         out.append(Obl("framed.%s.%s.fc%d.body%d" % (fe, fr, fc, bl), make_framed(fe, fr, fc, bl), timeout=T,
                        contracts=contracts[fr], lemmas=lem[fr], findings=("KF-write-registers-short-data-c12",) if False else (),
                        bounds="%s front-end, %s framing: a correctly framed request with function code %d whose %d body bytes are arbitrary (inconsistent quantity / byte count included); 4 symbolic registers; then a probe" % (fe, fr, fc, bl)))
+    # inputs shorter than an MBAP header (the socket framer's header-less path)
+    for fe in (("sync-tcp", "twisted-udp") if tier == "quick" else SL.FRONTENDS):
+        if fe == "sync-serial":
+            continue
+        for fc, L in ((6, 5), (22, 7)):
+            plan.append((fe, "tcp", fc, L, 1))
     for fe, fr, fc, L, reads in plan:
         out.append(Obl("any.%s.%s.fc%d.len%d.reads%d" % (fe, fr, fc, L, reads), make_any(fe, fr, fc, L, reads), timeout=T,
                        contracts=contracts[fr], lemmas=lem[fr], findings=("KF-ascii-lenient-lrc-field",) if fr == "ascii" and reads == 1 else (),
